@@ -204,6 +204,7 @@ type gen struct {
 	loopd     int
 	budget    int
 	inMapLoop bool
+	fldLoop   bool // inside a for whose loop variable is the injected field obj.C
 }
 
 var intNames = []string{"x", "y", "z", "w"}
@@ -368,6 +369,9 @@ func (g *gen) assignment(indent int, inLoop bool) (N, string) {
 		g.def[n] = true
 	case 5:
 		n := []string{"A", "B", "C"}[g.r.Intn(3)]
+		if g.fldLoop && n == "C" {
+			n = "A" // never the loop variable of the enclosing for
+		}
 		t, ts = N{"k": "fld", "n": n}, "obj."+n
 		if g.r.Intn(2) == 0 {
 			op = g.compound()
@@ -461,14 +465,30 @@ func (g *gen) block(indent, depth, n int, inLoop bool) []interface{} {
 			out = append(out, node)
 		case k < 16 && depth > 0 && g.loopd < 2:
 			v := []string{"i", "j"}[g.loopd]
-			lim := 1 + g.r.Intn(4)
+			lim := g.r.Intn(5) // 0: a loop that never iterates
 			start := g.r.Intn(2)
+			if !g.fldLoop && g.r.Intn(4) == 0 {
+				// the loop variable is an injected field: init, condition and step are visible to the host
+				ln := g.emit(indent, fmt.Sprintf("for obj.C = %d; obj.C < %d; obj.C += 1 {", start, lim))
+				g.loopd++
+				g.fldLoop = true
+				body := g.block(indent+1, depth-1, g.r.Intn(4), true) // possibly an empty body
+				g.fldLoop = false
+				g.loopd--
+				g.emit(indent, "}")
+				fc := func() N { return N{"k": "fld", "n": "C", "line": ln} }
+				init := N{"k": "asg", "t": fc(), "op": "=", "e": N{"k": "int", "v": start, "line": ln}, "line": ln}
+				cond := N{"k": "bin", "op": "<", "l": fc(), "r": N{"k": "int", "v": lim, "line": ln}, "line": ln}
+				step := N{"k": "asg", "t": fc(), "op": "+=", "e": N{"k": "int", "v": 1, "line": ln}, "line": ln}
+				out = append(out, N{"k": "for", "init": init, "c": cond, "step": step, "b": body, "line": ln})
+				break
+			}
 			ln := g.emit(indent, fmt.Sprintf("for %s = %d; %s < %d; %s += 1 {", v, start, v, lim, v))
 			g.loopd++
 			wasDef := g.def[v]
 			g.def[v] = true
 			g.ints = append(g.ints, v)
-			body := g.block(indent+1, depth-1, 1+g.r.Intn(3), true)
+			body := g.block(indent+1, depth-1, g.r.Intn(4), true) // possibly an empty body
 			g.ints = g.ints[:len(g.ints)-1]
 			g.def[v] = wasDef
 			g.loopd--
@@ -478,6 +498,11 @@ func (g *gen) block(indent, depth, n int, inLoop bool) []interface{} {
 			step := N{"k": "asg", "t": N{"k": "var", "n": v, "line": ln}, "op": "+=", "e": N{"k": "int", "v": 1, "line": ln}, "line": ln}
 			out = append(out, N{"k": "for", "init": init, "c": cond, "step": step, "b": body, "line": ln})
 			g.def[v] = true // the loop variable stays visible after the loop (flat scope)
+			if g.r.Intn(2) == 0 {
+				g.tag++
+				l3 := g.emit(indent, fmt.Sprintf("ev(%d, %s)", g.tag, v))
+				out = append(out, N{"k": "ev", "tag": g.tag, "e": N{"k": "var", "n": v, "line": l3}, "line": l3})
+			}
 		case k < 17 && depth > 0 && g.loopd < 2:
 			v := []string{"r1", "r2"}[g.loopd]
 			ln := g.emit(indent, fmt.Sprintf("forRange %s := arr {", v))
@@ -485,12 +510,18 @@ func (g *gen) block(indent, depth, n int, inLoop bool) []interface{} {
 			wasDef := g.def[v]
 			g.def[v] = true
 			g.ints = append(g.ints, v)
-			body := g.block(indent+1, depth-1, 1+g.r.Intn(3), true)
+			body := g.block(indent+1, depth-1, g.r.Intn(4), true) // possibly an empty body
 			g.ints = g.ints[:len(g.ints)-1]
 			g.def[v] = wasDef
 			g.loopd--
 			g.emit(indent, "}")
 			out = append(out, N{"k": "range", "v": v, "coll": "arr", "b": body, "line": ln})
+			if len(body) == 0 {
+				// the key variable of a loop that ran (arr is never empty) keeps its last value
+				g.tag++
+				l3 := g.emit(indent, fmt.Sprintf("ev(%d, %s)", g.tag, v))
+				out = append(out, N{"k": "ev", "tag": g.tag, "e": N{"k": "var", "n": v, "line": l3}, "line": l3})
+			}
 		case k == 17 && depth > 0 && g.loopd < 2 && !g.inMapLoop:
 			// forRange over the injected map: every key the map holds at loop entry exactly once, also when the body
 			// inserts keys.  The iteration order is unspecified, so the body is insensitive to it.
